@@ -108,6 +108,10 @@ Definition from_record (bs : list N) : option kind :=
   | _ => None
   end.
 
+(* RecordHeader::is_record_of_type_chunk: from_record's verdict, narrowed to "is it a chunk" *)
+Definition is_record_of_type_chunk (bs : list N) : option bool :=
+  match from_record bs with Some k => Some (kind_eqb k KChunk) | None => None end.
+
 (* RecordHeader::try_deserialize on exactly the header bytes (used by the size test) *)
 Definition header_try_deserialize (bs : list N) : option kind :=
   match mp_from_slice (STuple [SU W32]) bs with
@@ -227,6 +231,15 @@ Definition agree_header (k : kind) (bytes : list N) (back : option kind) : bool 
   bytes_eqb (header k) bytes && (len bytes =? SIZE) && kind_opt_eqb (header_try_deserialize bytes) back.
 
 Definition agree_from_record (bs : list N) (r : option kind) : bool := kind_opt_eqb (from_record bs) r.
+
+(* every public reader of the header module on one value: from_record, is_record_of_type_chunk, and
+   try_deserialize on the first SIZE bytes (None when the value is shorter) *)
+Definition agree_header_fns (bs : list N) (r : option kind) (is_chunk : option bool) (td2 : option (option kind)) : bool :=
+  kind_opt_eqb (from_record bs) r && option_eqb Bool.eqb (is_record_of_type_chunk bs) is_chunk &&
+  match td2 with
+  | Some x => kind_opt_eqb (header_try_deserialize (firstn (N.to_nat SIZE) bs)) x
+  | None => len bs <? SIZE
+  end.
 
 (* a real value of kind k: its tree has the model's shape, is well formed, the model encodes it to
    the implementation's bytes, and the model decodes those bytes back to the tree *)
